@@ -5,6 +5,7 @@ package gate
 import (
 	"bytes"
 	"fmt"
+	"os"
 	"runtime"
 	"sync"
 	"time"
@@ -141,9 +142,21 @@ func (h *Hub) ReleaseAll(v Verdict) {
 var quietStates = [][]byte{
 	[]byte("chan receive"), []byte("chan send"), []byte("select"), []byte("sync.Cond.Wait"),
 	[]byte("semacquire"), []byte("sync.Mutex.Lock"), []byte("sync.RWMutex"), []byte("IO wait"),
-	[]byte("sync.WaitGroup.Wait"), []byte("finalizer wait"), []byte("GC "), []byte("force gc"),
+	[]byte("sync.WaitGroup.Wait"), []byte("finalizer wait"), []byte("GC worker"), []byte("GC sweep wait"), []byte("GC scavenge wait"), []byte("force gc"),
 	[]byte("syscall"), []byte("debug call"), []byte("trace reader"), []byte("cleanup wait"),
 }
+
+// debugDump, when non-nil, keeps a copy of the last inspected dump (GATE_DEBUG).
+var debugDump []byte
+
+func init() {
+	if os.Getenv("GATE_DEBUG") != "" {
+		debugDump = make([]byte, 0, 1<<20)
+	}
+}
+
+// LastDump returns the goroutine dump of the last inspection (GATE_DEBUG only).
+func LastDump() string { return string(debugDump) }
 
 // LastBusy is the header line of the goroutine that kept the last inspection from being quiet.
 var LastBusy string
@@ -161,6 +174,9 @@ func quiet(allowSleep bool) (bool, int) {
 		n = runtime.Stack(stackBuf, true)
 	}
 	buf := stackBuf[:n]
+	if debugDump != nil {
+		debugDump = append(debugDump[:0], buf...)
+	}
 	count := 0
 	for len(buf) > 0 {
 		i := bytes.Index(buf, []byte("goroutine "))
@@ -184,13 +200,26 @@ func quiet(allowSleep bool) (bool, int) {
 		}
 		count++
 		st := line[lb+1:]
-		if bytes.HasPrefix(st, []byte("running")) {
-			continue // the caller
+		if count == 1 {
+			continue // the caller (runtime.Stack prints the calling goroutine first)
 		}
 		if allowSleep && bytes.HasPrefix(st, []byte("sleep")) {
 			continue
 		}
 		ok := false
+		if bytes.HasPrefix(st, []byte("semacquire")) {
+			// a plain semacquire is a real wait only under package sync; inside the runtime it is
+			// a goroutine queueing for the world-stop semaphore this inspection itself holds
+			// (e.g. an allocation that wants to start a GC cycle): that goroutine is busy
+			top := buf
+			if len(top) > 0 && top[0] == '\n' {
+				top = top[1:]
+			}
+			if !bytes.HasPrefix(top, []byte("sync.")) && !bytes.HasPrefix(top, []byte("internal/sync.")) {
+				LastBusy = string(line)
+				return false, count
+			}
+		}
 		for _, q := range quietStates {
 			if bytes.HasPrefix(st, q) {
 				ok = true
